@@ -101,6 +101,47 @@ let do_it args =
     String.concat " " (toks @ [fin])
   | _ -> "BADREQ"
 
+
+(* ---- stream ml:  J <k> <r> <L> <lastnull> <rows> <vals> <api> <perm or -> <esi> ...   (IT + finish) *)
+let obs_tok o = Printf.sprintf "%d:%s:%s" (if o.o_complete then 1 else 0) (mask o.o_src) (mask o.o_rep)
+let vals_tok o = String.concat "." (List.map (fun x -> match x with None -> "-" | Some b -> hex_of_bytes b) o.o_vals)
+let do_ml args =
+  match args with
+  | k :: r :: l :: ln :: rows :: vals :: api :: perm :: esis ->
+    let k = int_of_string k and r = int_of_string r and l = int_of_string l in
+    let h = parse_rows rows in
+    let v = List.map bytes_of_hex (String.split_on_char '.' vals) in
+    let pm = if perm = "-" then [] else List.map (fun x -> nat_of_int (int_of_string x)) (String.split_on_char ',' perm) in
+    let ((steps, last), fin) = ml_session (nat_of_int k) (nat_of_int r) (nat_of_int l) h (ln = "1") v
+                                  (List.map (fun e -> nat_of_int (int_of_string e)) esis) pm in
+    let stoks = if api = "0" then List.map (fun o -> match o with None -> "OUT-OF-FUEL" | Some o -> "S" ^ obs_tok o) steps
+                else (match last with None -> ["OUT-OF-FUEL"] | Some o -> ["S" ^ obs_tok o]) in
+    let ftok = match fin with
+      | None -> ["F-OUT-OF-FUEL"]
+      | Some f -> [Printf.sprintf "F%d%s" (if f.fo_ok then 1 else 0) (obs_tok f.fo_obs); "V" ^ vals_tok f.fo_obs] in
+    String.concat " " (stoks @ ftok)
+  | _ -> "BADREQ"
+
+(* ---- stream p2d:  T <nb_rows> <nb_cols>  -> NONE | <d> <l> H<rows> *)
+let do_p2d args =
+  match args with
+  | [r; n] ->
+    (match create2d (nat_of_int (int_of_string r)) (nat_of_int (int_of_string n)) with
+     | None -> "R NONE"
+     | Some ((d, l), m) ->
+       Printf.sprintf "R %d %d H%d,%d:%s" (int_of_nat d) (int_of_nat l) (int_of_nat m.nr) (int_of_nat m.nc)
+         (String.concat "/" (List.map (fun l -> String.concat "," (List.map (fun x -> string_of_int (int_of_nat x)) l)) m.rws0)))
+  | _ -> "R BADREQ"
+
+(* ---- stream rsenc:  G <m 4|8> <k> <n> <L> <hex sources '.' separated>  -> repair symbols *)
+let do_rsenc args =
+  match args with
+  | [m; k; n; l; src] ->
+    let s = List.map bytes_of_hex (String.split_on_char '.' src) in
+    let rep = rs_repairs (m = "8") (nat_of_int (int_of_string k)) (nat_of_int (int_of_string n)) (nat_of_int (int_of_string l)) s in
+    "R " ^ String.concat "." (List.map hex_of_bytes rep)
+  | _ -> "R BADREQ"
+
 (* ---- stream sparse:  M <nr> <nc> <op> ...  (grammar: see harness/drv_sparse.c) *)
 let nats_dot s = if s = "" || s = "-" then [] else List.map (fun x -> nat_of_int (int_of_string x)) (String.split_on_char '.' s)
 let junk_of s = if s = "" || s = "-" then [] else
@@ -212,6 +253,9 @@ let () =
       | "V" :: args -> print_endline (do_params args)
       | "N" :: args -> print_endline (do_dense args)
       | "L" :: args -> print_endline (do_solve args)
+      | "J" :: args -> print_endline (do_ml args)
+      | "T" :: args -> print_endline (do_p2d args)
+      | "G" :: args -> print_endline (do_rsenc args)
       | _ -> print_endline "BADREQ"
     done
   with End_of_file -> ()
